@@ -189,6 +189,7 @@ def observe_load(case, files=False):
 
 class LoadPlugin(Plugin):
     entry = 4
+    keep = qprops.PRIMITIVES   # the methods that define what a converter denotes; derived operations are C03/C06/C07's business
     files = False
 
     def generate(self, rng, n):
@@ -232,7 +233,7 @@ class LoadPlugin(Plugin):
         if model and obs[1] != model[1]:
             out["listing impl/model"] = [plain(obs[1][:6]), plain(model[1][:6])]
         if model and len(obs) > 2 and len(model) > 2:
-            out["answer diffs"] = [(i, plain(a), plain(b)) for i, (a, b) in enumerate(zip(obs[2], model[2])) if a != b][:6]
+            out["answer diffs"] = [(i, plain(a), plain(b)) for i, (a, b) in enumerate(zip(obs[2], model[2])) if a != b and a != qprops.WILD][:6]
         return out
 
 
